@@ -48,6 +48,8 @@ const NRanks = 6
 
 func lit(typ string, rank int) string {
 	switch typ {
+	case "wint": // wide integer domain: the rank is the value (dedicated scenarios that need many distinct keys)
+		return fmt.Sprint(rank)
 	case "int":
 		return fmt.Sprint(intVals[rank])
 	case "float":
@@ -59,6 +61,8 @@ func lit(typ string, rank int) string {
 
 func valueOf(typ string, rank int) types.Value {
 	switch typ {
+	case "wint":
+		return types.NewInteger(int32(rank))
 	case "int":
 		return types.NewInteger(intVals[rank])
 	case "float":
@@ -103,6 +107,36 @@ func rankOf(v *types.Value) int {
 	return -99
 }
 
+// colRank: rank of a value read back from a column of the given driver type
+func colRank(typ string, v *types.Value) int {
+	if typ == "wint" {
+		if v == nil {
+			return -99
+		}
+		if v.IsNull() {
+			return -1
+		}
+		return int(v.ToInteger())
+	}
+	return rankOf(v)
+}
+
+func rowsToRanksT(t *tableDef, proj []int, rows [][]*types.Value) [][]int {
+	out := make([][]int, 0, len(rows))
+	for _, r := range rows {
+		rr := make([]int, 0, len(r))
+		for j, v := range r {
+			typ := "int"
+			if j < len(proj) && proj[j] < len(t.cols) {
+				typ = t.cols[proj[j]]
+			}
+			rr = append(rr, colRank(typ, v))
+		}
+		out = append(out, rr)
+	}
+	return out
+}
+
 func rowsToRanks(rows [][]*types.Value) [][]int {
 	out := make([][]int, 0, len(rows))
 	for _, r := range rows {
@@ -125,7 +159,7 @@ type tableDef struct {
 func (t *tableDef) createSQL() string {
 	parts := []string{}
 	for i, c := range t.cols {
-		ty := map[string]string{"int": "int", "float": "float", "varchar": "varchar(400)"}[c]
+		ty := map[string]string{"int": "int", "wint": "int", "float": "float", "varchar": "varchar(400)"}[c]
 		parts = append(parts, t.names[i]+" "+ty)
 	}
 	return "CREATE TABLE " + t.name + "(" + strings.Join(parts, ", ") + ");"
@@ -341,7 +375,7 @@ func (s *sqlRun) insertOther(t *tableDef, rows [][]int) {
 }
 
 func (s *sqlRun) selectQ(t *tableDef, p *pred, proj []int, sync bool) {
-	if s.dead || (s.txn != nil && s.aborted) {
+	if s.dead || (s.txn != nil && s.aborted) || t.usesHash(p, nil) {
 		return
 	}
 	cols := "*"
@@ -362,7 +396,7 @@ func (s *sqlRun) selectQ(t *tableDef, p *pred, proj []int, sync bool) {
 	ev["plan"] = s.e.PlanOf(sql)
 	s.scanInfo(ev)
 	r := s.stmt(ev, sql)
-	ev["rows"] = rowsToRanks(r.Rows)
+	ev["rows"] = rowsToRanksT(t, proj, r.Rows)
 	if sync {
 		ev["sync"] = true
 	}
@@ -392,7 +426,7 @@ func (s *sqlRun) scanInfo(ev map[string]interface{}) {
 func (s *sqlRun) scan(t *tableDef) { s.selectQ(t, predTrue, nil, true) }
 
 func (s *sqlRun) update(t *tableDef, set [][2]int, p *pred) {
-	if s.dead || (s.txn != nil && s.aborted) {
+	if s.dead || (s.txn != nil && s.aborted) || t.usesHash(p, set) {
 		return
 	}
 	parts := []string{}
@@ -410,7 +444,7 @@ func (s *sqlRun) update(t *tableDef, set [][2]int, p *pred) {
 }
 
 func (s *sqlRun) delete(t *tableDef, p *pred) {
-	if s.dead || (s.txn != nil && s.aborted) {
+	if s.dead || (s.txn != nil && s.aborted) || t.usesHash(p, nil) {
 		return
 	}
 	sql := "DELETE FROM " + t.name + where(p, t) + ";"
@@ -468,7 +502,7 @@ func randRow(rng *rand.Rand, t *tableDef, maxRank int) []int {
 
 var kindConst = map[string]index_constants.IndexKind{"skiplist": index_constants.IndexKindSkipList, "btree": index_constants.IndexKindBtree,
 	"hash": index_constants.IndexKindHash, "uniq": index_constants.IndexKindUniqSkipList, "none": index_constants.IndexKindInvalid}
-var typeConst = map[string]types.TypeID{"int": types.Integer, "float": types.Float, "varchar": types.Varchar}
+var typeConst = map[string]types.TypeID{"int": types.Integer, "wint": types.Integer, "float": types.Float, "varchar": types.Varchar}
 
 // createAPI creates the table through catalog.CreateTable so that the index kind of each column can be chosen
 func (s *sqlRun) createAPI(t *tableDef) {
@@ -561,7 +595,7 @@ func (s *sqlRun) fetchRows(t *tableDef, rids []page.RID) (rows [][]int, res stri
 		row := []int{}
 		for c := range t.cols {
 			v := tpl.GetValue(tm.Schema(), uint32(c))
-			row = append(row, rankOf(&v))
+			row = append(row, colRank(t.cols[c], &v))
 		}
 		rows = append(rows, row)
 	}
@@ -662,6 +696,36 @@ func (s *sqlRun) probes(t *tableDef, rng *rand.Rand) {
 		}
 		s.selectQ(t, atom(c, cmpOps[rng.Intn(6)], rng.Intn(NRanks)), nil, false)
 	}
+}
+
+// usesHash: the statement has a predicate on, or assigns, a hash-indexed column.  The hash index kind is reachable
+// through the catalog API only; its UpdateEntry panics "not implemented yet" and the optimizer plans ordered range
+// scans over it, which it does not provide - such statements are outside what the engine supports and are not issued.
+func (t *tableDef) usesHash(p *pred, set [][2]int) bool {
+	if t.kinds == nil {
+		return false
+	}
+	var walk func(p *pred) bool
+	walk = func(p *pred) bool {
+		if p == nil {
+			return false
+		}
+		switch p.K {
+		case "cmp":
+			return t.kinds[p.C] == "hash"
+		case "and", "or":
+			return walk(p.A) || walk(p.B)
+		}
+		return false
+	}
+	if len(set) > 0 { // an UPDATE may relocate the row, which re-files it in every index of the table
+		for _, k := range t.kinds {
+			if k == "hash" {
+				return true
+			}
+		}
+	}
+	return walk(p)
 }
 
 func (t *tableDef) hasBtreeVarchar() bool {
